@@ -1,6 +1,7 @@
 package main
 
 import (
+	"encoding/json"
 	"flag"
 	"fmt"
 	"os"
@@ -49,6 +50,29 @@ func main() {
 		os.Exit(cmdFunc(eng, args, *keep, *verbose))
 	case "check":
 		os.Exit(cmdCheck(eng, args, *tier, *keep, *verbose, start))
+	case "validate":
+		// rlverify validate <prop>: contract validation against the real code only (see validate.go)
+		if len(args) < 1 {
+			os.Exit(2)
+		}
+		eng.curProp = args[0]
+		eng.known = loadKnownFindings(eng.verif)
+		var fcs []*FuncContract
+		for _, fc := range eng.cs.Funcs {
+			if hasProp(fc.Props, args[0]) && !fc.Trusted && !fc.Assumed && !fc.FnType {
+				fcs = append(fcs, fc)
+			}
+		}
+		sort.Slice(fcs, func(i, j int) bool { return fcs[i].Key < fcs[j].Key })
+		dir := workDir()
+		defer os.RemoveAll(dir)
+		results := verifyAllProp(eng, fcs, nil, args[0], dir, 3000, 10000, NewSolveStats(), false)
+		vs := validateProp(eng, results)
+		data, _ := json.MarshalIndent(vs, "", " ")
+		fmt.Println(string(data))
+		if len(vs.Disagreements) > 0 {
+			os.Exit(2)
+		}
 	case "list":
 		var ks []string
 		for k, fc := range eng.cs.Funcs {
